@@ -1488,8 +1488,9 @@ func (e *Entry) Find(name string) *Entry {
 		default:
 			_, part = getPrefix(part)
 			switch part {
-			case ".":
-			case "", "..":
+			case "", ".", "..":
+				// What is left of a step once its prefix is taken
+				// off is a name: "p:." and "p:.." name nothing.
 				return nil
 			default:
 				e = e.Dir[part]
